@@ -98,7 +98,7 @@ def merge_streams(outs):
 
 # per property: Lean modules holding its theorems, the streams it runs, the oracle it reads
 SPECS = {
-    "C01": dict(modules=["Ovldverif.Props.C01", "Ovldverif.Props.C01Dep"], streams=["fn", "fn_rich", "dep_f", "dep_e", "dep_comb", "rewrite"], oracle="C01"),
+    "C01": dict(modules=["Ovldverif.Props.C01", "Ovldverif.Props.C01Dep"], streams=["fn", "fn_rich", "dep_f", "dep_e", "dep_comb", "rewrite", "dep_lit"], oracle="C01"),
     "C10": dict(modules=["Ovldverif.Props.C10", "Ovldverif.Props.C10Order"], streams=["dep_e", "dep_f", "dep_lit", "dep_comb"], oracle="C10"),
     "C11": dict(modules=["Ovldverif.Props.C11", "Ovldverif.Props.C11Comb", "Ovldverif.Props.C10", "Ovldverif.Props.C15"], streams=["dep_e", "dep_f", "dep_lit", "dep_comb", "annotations"], oracle="C11"),
     "C02": dict(modules=["Ovldverif.Props.C02"], streams=["table_static", "fn_static", "levels"], oracle="C02"),
@@ -106,11 +106,11 @@ SPECS = {
     "C04": dict(modules=["Ovldverif.Props.C04"], streams=["table_static", "table_rich", "fn", "dep_f"], oracle="C04"),
     "C05": dict(modules=["Ovldverif.Props.C05", "Ovldverif.Props.C16"], streams=["table_static", "table_rich", "fn", "fn_types", "graph"], oracle="C05"),
     "C06": dict(modules=["Ovldverif.Props.C06"], streams=["table_static", "fn_static", "levels", "levels_rich"], oracle="C06"),
-    "C07": dict(modules=["Ovldverif.Props.C07", "Ovldverif.Props.C07Chain"], streams=["table_static", "fn_static", "levels"], oracle="C07"),
-    "C20": dict(modules=["Ovldverif.Props.C20"], streams=["table_rich", "fn", "dep_f", "fn_types"], oracle="C20"),
+    "C07": dict(modules=["Ovldverif.Props.C07", "Ovldverif.Props.C07Chain"], streams=["table_static", "fn_static", "levels", "graph"], oracle="C07"),
+    "C20": dict(modules=["Ovldverif.Props.C20"], streams=["table_rich", "fn", "dep_f", "fn_types", "graph"], oracle="C20"),
     "C09": dict(modules=["Ovldverif.Props.C09", "Ovldverif.Props.C09Stmt"], streams=["rewrite", "rewrite_struct"], oracle="C09"),
     "C16": dict(modules=["Ovldverif.Props.C16"], streams=["graph"], oracle="C16"),
-    "C18": dict(modules=["Ovldverif.Props.C18", "Ovldverif.Props.C18Resolve"], streams=["build", "table_cut", "table_cut_rich"], oracle="C18"),
+    "C18": dict(modules=["Ovldverif.Props.C18", "Ovldverif.Props.C18Resolve", "Ovldverif.Props.C18Tree"], streams=["build", "table_cut", "table_cut_rich"], oracle="C18"),
     "C08": dict(modules=["Ovldverif.Props.C08", "Ovldverif.Props.C09"], streams=["graph", "graph_deep", "rewrite"], oracle="C08"),
     "C15": dict(modules=["Ovldverif.Props.C15"], streams=["annotations"], oracle="C15"),
     "C14": dict(modules=["Ovldverif.Props.C14"], streams=["annotations", "fn_types"], oracle="C14"),
